@@ -280,18 +280,32 @@ def _work_lemma(task):
         out["n_total"] = len(vcs)
         hints = (getattr(mod, "LEMMA_HINTS", None) or {}).get(name)
         checked = set()
+        open_goals = set()
+        vacuous = set()
         for k, (sub, pc, goal) in enumerate(vcs):
             key = tuple(t.get_id() for t in pc)
             if pc and key not in checked and len(checked) < 6 and (checked.add(key) or True) \
                     and solve.is_sat(pc, 700) == "unsat":
-                out["error"] = "vacuity guard: hypotheses of lemma %s.%s are contradictory" % (name, sub)
-                return out
-            r = solve.check_vc(pc, goal, tier, hints=hints)
+                vacuous.add(key)
+            if key in vacuous:
+                # contradictory hypotheses prove anything: such an obligation is not counted as discharged
+                out["results"].append({"name": "%s.lemma.%s%s" % (prop, name, ("." + sub) if sub else ""),
+                                       "kind": "lemma", "status": "unknown", "time": 0.0, "info": {}, "k": k,
+                                       "backend": "vacuity guard: the hypotheses of this obligation are contradictory"})
+                continue
+            gkey = sub.split(".", 1)[1] if sub.startswith("path") and "." in sub else None
+            if gkey is not None and gkey in open_goals:
+                # the same goal is already open on an earlier path of this block: do not spend the budget again
+                r = {"status": "unknown", "backend": "skipped (open on an earlier path)", "time": 0.0}
+            else:
+                r = solve.check_vc(pc, goal, tier, hints=hints)
+                if r["status"] != "unsat" and gkey is not None:
+                    open_goals.add(gkey)
             rec = {"name": "%s.lemma.%s%s" % (prop, name, ("." + sub) if sub else ""), "kind": "lemma",
                    "status": r["status"], "backend": r.get("backend"), "time": round(r.get("time", 0.0), 3),
                    "info": {}, "k": k}
             if r["status"] == "sat":
-                rec["model_text"] = str(r.get("model"))[:4000]
+                rec["model_text"] = (str(r.get("model")) if r.get("model") is not None else r.get("model_text") or "")[:4000]
                 rec["goal_text"] = str(goal)[:1500]
             out["results"].append(rec)
     except Exception:
